@@ -48,6 +48,7 @@ func main() {
 	fmt.Fprintf(os.Stderr, "K parse %v\n", time.Since(tk))
 	kIndexed(r)
 	kBER(r)
+	kMarker(r)
 	fmt.Fprintf(os.Stderr, "K all %v\n", time.Since(tk))
 	search(r)
 }
@@ -395,6 +396,44 @@ func kIndexed(r *vh.Run) {
 	}
 }
 
+// ------------------------------------------------------------------ K: detectMarker
+
+func kMarker(r *vh.Run) {
+	toks := []string{"endobj", "endobj", "xref", "xref", "stream", "endstream", "startxref", "trailer", "x", " ", "\n", "\r", "\x00", "\x85", "\xa0", "\t",
+		"e", "endob", "ref", "xre", "strea", "obj", "1 0 obj", "<<>>", "%"}
+	emit := func(line string) {
+		for _, marker := range []string{"endobj", "stream"} {
+			var res string
+			pan := false
+			func() {
+				defer func() {
+					if e := recover(); e != nil {
+						pan = true
+						r.OracleFail("panic:model.detectMarker", map[string]any{"hex": vh.Hex([]byte(line)), "marker": marker}, fmt.Sprint(e))
+					}
+				}()
+				res = vh.Int(int64(model.VerifDetectMarker(line, marker)))
+			}()
+			if pan {
+				continue // the model is the guarded function (Property.detect_marker_in_bounds); a panic is the finding
+			}
+			r.OracleOK()
+			r.Case("detect_marker", []string{vh.Bool(marker == "endobj"), vh.Hex([]byte(line))}, res)
+		}
+	}
+	for _, l := range []string{"", "endobj", "endobj\n", "endobjxref", "endobjxref ", "endobjstartxref", "endobjstartxref\n", "endobjendobj ", "stream", "streamx", "endstream\n", "xrefendobj endobj\n"} {
+		emit(l)
+	}
+	n := r.Pick(4000, 80000)
+	for i := 0; i < n; i++ {
+		var sb strings.Builder
+		for k := 0; k < 1+r.Rand.Intn(7); k++ {
+			sb.WriteString(toks[r.Rand.Intn(len(toks))])
+		}
+		emit(sb.String())
+	}
+}
+
 // ------------------------------------------------------------------ O: the search
 
 func sha(b []byte) string { h := sha1.Sum(b); return hex.EncodeToString(h[:6]) }
@@ -560,6 +599,23 @@ func search(r *vh.Run) {
 		addJob("gen-"+g.name, g.data, []string{"read", "vstrict", "vrelaxed", "optimize", "info", "pages"}, "xrefStreamDocs: "+g.name, "")
 		r.Count("input:xrefstream")
 	}
+	// 2d. whole input classes behind red-team findings (classgen.go)
+	for _, g := range outlineListDocs(r.Rand, r.Pick(150, 5000)) {
+		addJob("gen-"+g.name, g.data, []string{"vrelaxed", "vstrict", "bookmarks", "optimize"}, "outlineListDocs: "+g.name, g.expect)
+		r.Count("input:outline-lists")
+	}
+	for _, g := range nameTreeDocs(r.Rand, r.Pick(100, 4000)) {
+		addJob("gen-"+g.name, g.data, []string{"vrelaxed", "vstrict", "bookmarks", "attach", "annots", "optimize"}, "nameTreeDocs: "+g.name, "")
+		r.Count("input:name-trees")
+	}
+	for _, g := range boundaryDocs() {
+		addJob("gen-"+g.name, g.data, []string{"read", "vrelaxed", "optimize"}, "boundaryDocs: "+g.name, "")
+		r.Count("input:buffer-boundary")
+	}
+	for _, g := range revisionDocs(r.Rand, r.Pick(200, 8000)) {
+		addJob("gen-"+g.name, g.data, []string{"read", "vrelaxed", "info", "optimize"}, "revisionDocs: "+g.name, "")
+		r.Count("input:revisions")
+	}
 	// 2c. signatures: BER/CMS payloads over the /Contents of the shipped signed samples (sigmut.go)
 	ts := time.Now()
 	sigJobs(r, repo, addJob)
@@ -678,6 +734,7 @@ func search(r *vh.Run) {
 	fmt.Fprintf(os.Stderr, "search pass: %d jobs, %d raw findings, %v\n", len(jobs), len(finds), time.Since(t0))
 	var cjobs []job
 	cclass := map[string]string{}
+	cstack := map[string][]string{}
 	for _, c := range classes {
 		fs := byClass[c]
 		sort.Slice(fs, func(i, j int) bool { return fs[i].job.id < fs[j].job.id })
@@ -690,6 +747,7 @@ func search(r *vh.Run) {
 			j.ops = []string{f.op}
 			j.id = fmt.Sprintf("c%d-%s", len(cjobs), j.id)
 			cclass[j.id] = c
+			cstack[j.id] = f.stack
 			cjobs = append(cjobs, j)
 		}
 	}
@@ -704,6 +762,14 @@ func search(r *vh.Run) {
 		if !ok {
 			r.Count("unconfirmed:" + cclass[j.id])
 			continue
+		}
+		if strings.HasPrefix(a.class, "timeout:") {
+			// name the hang after the function both dumps (search pass, confirmation) are looping in
+			if !strings.Contains(a.detail, "profiled") {
+				if o := loopOwner(cstack[j.id], a.stack); o != "" {
+					a.class = "timeout:" + o
+				}
+			}
 		}
 		if seenClass[a.class] >= 2 {
 			continue
